@@ -155,6 +155,17 @@ check("C10", "TLC model checking of the substitution lemma on Resolve.tla (textu
       "packages must abort with NotImplementedError. Completion orders of the resolver awaitables are covered by C12.",
       "Trusted: TLC, renderer, n-ary normalisation with bracket spans of the substituted token sequence.", "DESIGN.md 3.7, 5/C10")
 
+check("C11", "TLC model checking of Cache.tla (heap with aliased list cells; Pure, CachePristine under the required deep-copy design; three aliasing copy "
+      "modes must violate) + replay of every TLC-generated history on both real cached parsers",
+      "TLC explores every history of 5 steps over 2 (thorough 3) strings of parse (hit/miss), in-place edits (append/remove/replace at the root list or a "
+      "child's list of the two most recently returned trees) and eviction, and proves that with deep copies every parse returns the pristine tree and "
+      "the cache stays pristine, while shallow copy (lark Tree.copy), children-only copy and no-copy-on-miss each violate it. Every history ending in a "
+      "parse is replayed on parse_condition_expression_to_tree and parse_ahb_expression_to_single_requirement_indicator_expressions (fresh strings per "
+      "history, eviction by flooding with cache_info().maxsize fillers for a seeded sample): each returned tree must be structurally identical to an "
+      "un-cached parse; evaluation results before/after edits are compared as well.",
+      "Trusted: TLC; the mapping of model cells to real lists (tree.children, tree.children[k].children); lark's un-cached parser as the reference for "
+      "the pristine structure.", "DESIGN.md 3.8, 5/C11")
+
 NOT_BUILT = "check under construction in this session (specification module planned in DESIGN.md section 3); not claimed yet"
 
 
